@@ -387,6 +387,9 @@ PROPS['C17'] = dict(
           '12 indexed parameters w[0..11] come back in numeric index order for three insertion orders', env=_SYMFF),
         O('C17.conditional_values', 'harness.c17_external', 'conditional_values', 120, 600,
           'only active children presented; unknown or inactive parameters raise ValueError (no silent truncation)', env=_SYMFF),
+        O('C17.conditional_other_parents', 'harness.c17_external', 'conditional_other_parents', 240, 600,
+          'conditional parents that are boolean, integer-valued discrete or integer: the active child is presented with its '
+          'declared type next to the parent (bool as True/False), an inactive child is an error', env=_SYMFF),
     ])
 
 
@@ -544,7 +547,7 @@ PROPS['C15'] = dict(
            'INTEGER ranges of width 0..4, 1..5 categories; native round trips over all feasible points x converter options '
            '(scale, one-hot, oov padding, continuification threshold 0/10/inf, LINEAR/LOG/REVERSE_LOG) and all 6 column '
            'layouts of a categorical + continuous + discrete space',
-    outside='float32 mode; float rounding inside the symbolic kernels; LOG/REVERSE_LOG outside the listed feasible points; '
+    outside='float32 mode beyond the float32_double obligation; float rounding inside the symbolic kernels; LOG/REVERSE_LOG outside the listed feasible points; '
             'jnp_converters padding schedules; embedder.ProblemAndTrialsScaler; safety-metric label shifting',
     assumptions=['core.np = engine/npshim on symbolic scalars (self-tested against numpy)'],
     obligations=[
@@ -561,6 +564,10 @@ PROPS['C15'] = dict(
           'combination; exactly one active one-hot entry; scaled features in the unit interval with the documented orientation'),
         O('C15.roundtrip_space', 'harness.c15_encoding', 'roundtrip_space', 200, 600,
           'TrialToArrayConverter (+ ContinuousCategoricalFeatureMapper map/unmap) round trip on every column layout'),
+        O('C15.float32_double', 'harness.c15_encoding', 'float32_double', 120, 300,
+          'float32 features, DOUBLE parameter with bounds a float32 cannot represent: feasible points round-trip to float32 '
+          'accuracy; with clipping on ANY feature value (far outside, one ulp outside, 1e30) decodes into [low, high]',
+          '6 bound pairs x scale on/off x clip on/off x 9 feature values'),
         O('C15.labels_roundtrip', 'harness.c15_encoding', 'labels_roundtrip', 60, 300,
           'objective labels: to_metrics(convert(m)) == m under either sign convention; missing measurement -> NaN'),
     ])
